@@ -296,7 +296,7 @@ var StructTypes = []reflect.Type{
 	T(CN1{}), T(CN2{}), T(NMapHolder{}),
 	T(ManyF{}), T(ManyL{}),
 	T(Node{}), T(FNode{}), T(Ping{}), T(Pong{}), T(ENode{}), T(DeepNil{}),
-	T(MapAndLists{}), T(Wrap{}), T(WrapList{}), T(PtrTime{}), T(Named{}), T(SelfAny{}), T(SelfAnyList{}), T(PtrConts{}), T(MutA{}), T(MutB{}), T(MpKeyStruct{}), T(MutGraph{}), T(NonASCII{}), T(RecConts{}), T(AmpTop{}), T(AmpN{}), T(FloatMix{}), T(Forest{}), T(CaseTwins{}), T(Bags{}), T(PtrNamed{}), T(NonASCIIFirst{}), T(IntMix{}), T(Empty{}), T(BaseEnt{}), T(PlainEnt{}), T(AccountEnt{}), T(PtrBaseEnt{}), T(Ents{}),
+	T(MapAndLists{}), T(Wrap{}), T(WrapList{}), T(PtrTime{}), T(Named{}), T(SelfAny{}), T(SelfAnyList{}), T(PtrConts{}), T(MutA{}), T(MutB{}), T(MpKeyStruct{}), T(MutGraph{}), T(NonASCII{}), T(RecConts{}), T(AmpTop{}), T(AmpN{}), T(FloatMix{}), T(Forest{}), T(CaseTwins{}), T(Bags{}), T(PtrNamed{}), T(NonASCIIFirst{}), T(IntMix{}), T(Empty{}), T(NumMaps{}), T(BaseEnt{}), T(PlainEnt{}), T(AccountEnt{}), T(PtrBaseEnt{}), T(Ents{}),
 }
 
 // TypeByName finds a zoo struct type.
@@ -690,6 +690,16 @@ type IntMix struct {
 
 // Empty has no fields at all: every field of a wire definition is unknown to it.
 type Empty struct{}
+
+// NumMaps: maps nested in typed containers whose key and value have the same numeric type (converted entry by
+// entry into the typed destination).
+type NumMaps struct {
+	A map[string]map[int]int
+	B []map[uint16]uint16
+	C map[string]map[float32]float32
+	D []map[int64]int64
+	E map[string]map[uint64]uint64
+}
 
 // PtrNamed declares HessianCodecName on the pointer receiver: a value of the type does not have the method,
 // a pointer to it does.
